@@ -128,6 +128,11 @@ impl Parser {
         }
     }
 
+    // Token vector always ends with EOT, looking past the end yields that EOT token
+    fn tok(&self, index: usize) -> &Token {
+        if index < self.tokens.len() { &self.tokens[index] } else { &self.tokens[self.tokens.len() - 1] }
+    }
+
     fn parse(&mut self) -> Result<Vec<Stmt>, PakhiErr> {
         // Figuring out which modules are direct child of root module
         let parent_module_file_name = self.extract_filename(&self.main_module_path);
@@ -153,7 +158,7 @@ impl Parser {
             if self.current > self.tokens.len() - 1 {
                 return Err(PakhiErr::UnexpectedError("Error at last line, Expected a ';'".to_string()));
             }
-            if self.tokens[self.current].kind == TokenKind::Semicolon {
+            if self.tok(self.current).kind == TokenKind::Semicolon {
                 // useful semicolon should be consumed by self.statements()
                 // if not consumed assuming not useful semicolon
                 // function call needs this
@@ -169,7 +174,7 @@ impl Parser {
     fn statements(&mut self) -> Result<Stmt, PakhiErr> {
         let (line, file_name) = self.get_token_line_file_name(self.current)?;
 
-        match self.tokens[self.current].kind {
+        match self.tok(self.current).kind {
             TokenKind::Print => self.print_stmt(),
             TokenKind::PrintNoEOL => self.print_no_newline_stmt(),
             TokenKind::Var => self.assignment_stmt(),
@@ -199,8 +204,8 @@ impl Parser {
         // skipping module keyword token
         self.current += 1;
 
-        if self.tokens[self.current].kind == TokenKind::Identifier {
-            let module_import_name = self.tokens[self.current].lexeme.clone();
+        if self.tok(self.current).kind == TokenKind::Identifier {
+            let module_import_name = self.tok(self.current).lexeme.clone();
             match self.named_module_import(module_import_name) {
                 Ok(_) => {},
                 Err(e) => return Err(e),
@@ -226,13 +231,13 @@ impl Parser {
         // skipping module name identifier token and equal token
         self.current += 2;
 
-        let module_path = match  self.tokens[self.current].kind {
+        let module_path = match  self.tok(self.current).kind {
             TokenKind::String(ref path) => {
                 let mut concated_module_path = Path::new(path).to_path_buf();
                 self.current += 1;
 
-                while self.tokens[self.current].kind != TokenKind::Semicolon {
-                    match self.tokens[self.current].kind {
+                while self.tok(self.current).kind != TokenKind::Semicolon {
+                    match self.tok(self.current).kind {
                         TokenKind::String(ref p) => {
                             let rest_of_the_path = Path::new(p);
                             concated_module_path = concated_module_path.join(rest_of_the_path);
@@ -453,8 +458,8 @@ impl Parser {
                                         import_stmt_start_index: usize) -> Result<String, PakhiErr>
     {
         let import_path_offset = 3;
-        match tokens[import_stmt_start_index + import_path_offset].kind.clone() {
-            TokenKind::String(import_path) => {
+        match tokens.get(import_stmt_start_index + import_path_offset).map(|t| t.kind.clone()) {
+            Some(TokenKind::String(import_path)) => {
                 return Ok(self.extract_filename(&import_path));
             },
             _ => {
@@ -488,7 +493,7 @@ impl Parser {
         let (line, file_name) = self.get_token_line_file_name(self.current)?;
 
         // probably array indexing after function call won't work
-        if self.tokens[self.current + 1].kind == TokenKind::ParenStart {
+        if self.tok(self.current + 1).kind == TokenKind::ParenStart {
             // assuming its a function call statement
             let expr = self.expression()?;
 
@@ -505,17 +510,17 @@ impl Parser {
 
         // consuming var token
         self.current += 1;
-        if self.tokens[self.current].kind != TokenKind::Identifier {
+        if self.tok(self.current).kind != TokenKind::Identifier {
             let (line, file_name) = self.extract_err_meta()?;
             return Err(PakhiErr::SyntaxError(line, file_name, "Expected an Identifier".to_string()));
         }
 
-        let var_name = self.tokens[self.current].clone();
+        let var_name = self.tok(self.current).clone();
 
         // consuming identifier token
         self.current += 1;
         let stmt;
-        if self.tokens[self.current].kind == TokenKind::Semicolon {
+        if self.tok(self.current).kind == TokenKind::Semicolon {
             // no value provided to initialize variable
             stmt = Stmt::Assignment(Assignment {
                 kind: AssignmentKind::FirstAssignment,
@@ -537,7 +542,7 @@ impl Parser {
             }, line, file_name);
         }
 
-        if self.tokens[self.current].kind != TokenKind::Semicolon {
+        if self.tok(self.current).kind != TokenKind::Semicolon {
             // newline was consumed, os actual error was at previous line
             if self.current >= self.tokens.len() {
                 return Err(PakhiErr::UnexpectedError("Unexpected error".to_string()));
@@ -556,19 +561,19 @@ impl Parser {
     fn re_assignment_stmt(&mut self) -> Result<Stmt, PakhiErr> {
         let (line, file_name) = self.get_token_line_file_name(self.current)?;
 
-        if self.tokens[self.current+1].kind != TokenKind::Equal &&
-            self.tokens[self.current+1].kind != TokenKind::SquareBraceStart {
+        if self.tok(self.current + 1).kind != TokenKind::Equal &&
+            self.tok(self.current + 1).kind != TokenKind::SquareBraceStart {
             // not a reassignment, only expression statement;
             return self.expression_stmt();
         }
 
-        let var_name = self.tokens[self.current].clone();
+        let var_name = self.tok(self.current).clone();
         // consuming Identifier token
         self.current += 1;
 
         // indexes will be populated only if assigning to array element, otherwise it will be empty
         let mut indexes: Vec<Expr> = Vec::new();
-        while self.tokens[self.current].kind != TokenKind::Equal {
+        while self.tok(self.current).kind != TokenKind::Equal {
             let index = self.expression()?;
             if let Expr::Primary(Primary::List(_), _, _) = index {
                 indexes.push(index);
@@ -578,7 +583,7 @@ impl Parser {
             }
         }
 
-        if self.tokens[self.current].kind != TokenKind::Equal {
+        if self.tok(self.current).kind != TokenKind::Equal {
             let (line, file_name) = self.extract_err_meta()?;
             return Err(PakhiErr::SyntaxError(line, file_name, "Expected '='".to_string()));
         }
@@ -633,7 +638,7 @@ impl Parser {
         self.current += 1;
 
         let mut return_value = Expr::Primary(Primary::Nil, line, file_name.clone());
-        if self.tokens[self.current].kind != TokenKind::Semicolon {
+        if self.tok(self.current).kind != TokenKind::Semicolon {
             // if not semicolon function return a value
             return_value = self.expression()?;
         }
@@ -702,7 +707,7 @@ impl Parser {
     fn or(&mut self) -> Result<Expr, PakhiErr> {
         let mut expr = self.and()?;
 
-        while self.tokens[self.current].kind == TokenKind::Or {
+        while self.tok(self.current).kind == TokenKind::Or {
             self.current += 1;
             let right = self.and()?;
 
@@ -719,7 +724,7 @@ impl Parser {
     fn and(&mut self) -> Result<Expr, PakhiErr> {
         let mut expr = self.equality()?;
 
-        while self.tokens[self.current].kind == TokenKind::And {
+        while self.tok(self.current).kind == TokenKind::And {
             self.current += 1;
             let right = self.equality()?;
 
@@ -736,10 +741,10 @@ impl Parser {
     fn equality(&mut self) -> Result<Expr, PakhiErr> {
         let mut expr = self.comparison()?;
 
-        while self.tokens[self.current].kind == TokenKind::NotEqual ||
-            self.tokens[self.current].kind == TokenKind:: EqualEqual
+        while self.tok(self.current).kind == TokenKind::NotEqual ||
+            self.tok(self.current).kind == TokenKind:: EqualEqual
         {
-            let operator = self.tokens[self.current].kind.clone();
+            let operator = self.tok(self.current).kind.clone();
             self.current += 1;
             let right = self.comparison()?;
 
@@ -757,12 +762,12 @@ impl Parser {
     fn comparison(&mut self) -> Result<Expr, PakhiErr> {
         let mut expr = self.addition()?;
 
-        while self.tokens[self.current].kind == TokenKind::GreaterThan ||
-            self.tokens[self.current].kind == TokenKind::GreaterThanOrEqual ||
-            self.tokens[self.current].kind == TokenKind::LessThan ||
-            self.tokens[self.current].kind == TokenKind::LessThanOrEqual
+        while self.tok(self.current).kind == TokenKind::GreaterThan ||
+            self.tok(self.current).kind == TokenKind::GreaterThanOrEqual ||
+            self.tok(self.current).kind == TokenKind::LessThan ||
+            self.tok(self.current).kind == TokenKind::LessThanOrEqual
         {
-            let operator = self.tokens[self.current].kind.clone();
+            let operator = self.tok(self.current).kind.clone();
             self.current += 1;
             let right = self.addition()?;
 
@@ -780,10 +785,10 @@ impl Parser {
     fn addition(&mut self) -> Result<Expr, PakhiErr> {
         let mut expr = self.multiplication()?;
 
-        while self.tokens[self.current].kind == TokenKind::Plus ||
-            self.tokens[self.current].kind == TokenKind::Minus
+        while self.tok(self.current).kind == TokenKind::Plus ||
+            self.tok(self.current).kind == TokenKind::Minus
         {
-            let operator = self.tokens[self.current].kind.clone();
+            let operator = self.tok(self.current).kind.clone();
             self.current += 1;
             let right = self.multiplication()?;
 
@@ -801,11 +806,11 @@ impl Parser {
     fn multiplication(&mut self) -> Result<Expr, PakhiErr> {
         let mut expr = self.unary()?;
 
-        while self.tokens[self.current].kind == TokenKind::Multiply ||
-            self.tokens[self.current].kind == TokenKind::Division ||
-            self.tokens[self.current].kind == TokenKind::Remainder
+        while self.tok(self.current).kind == TokenKind::Multiply ||
+            self.tok(self.current).kind == TokenKind::Division ||
+            self.tok(self.current).kind == TokenKind::Remainder
         {
-            let operator = self.tokens[self.current].kind.clone();
+            let operator = self.tok(self.current).kind.clone();
             self.current += 1;
             let right = self.unary()?;
             let (line, file_name) = self.get_token_line_file_name(self.current - 1)?;
@@ -820,10 +825,10 @@ impl Parser {
     }
 
     fn unary(&mut self) -> Result<Expr, PakhiErr> {
-        if self.tokens[self.current].kind == TokenKind::Not ||
-            self.tokens[self.current].kind == TokenKind::Minus
+        if self.tok(self.current).kind == TokenKind::Not ||
+            self.tok(self.current).kind == TokenKind::Minus
         {
-            let operator = self.tokens[self.current].kind.clone();
+            let operator = self.tok(self.current).kind.clone();
             let (line, file_name) = self.get_token_line_file_name(self.current)?;
             self.current += 1;
             let right = self.unary()?;
@@ -842,11 +847,11 @@ impl Parser {
 
         let mut arguments: Vec<Expr> = Vec::new();
 
-        if self.tokens[self.current].kind != TokenKind::ParenEnd {
+        if self.tok(self.current).kind != TokenKind::ParenEnd {
             loop {
                 let expr = self.expression()?;
                 arguments.push(expr);
-                if self.tokens[self.current].kind == TokenKind::Comma {
+                if self.tok(self.current).kind == TokenKind::Comma {
                     // consuming , token
                     self.current += 1;
                 } else {
@@ -872,7 +877,7 @@ impl Parser {
 
         // rewrite this to handle method invocation
         loop {
-            if self.tokens[self.current].kind == TokenKind::ParenStart {
+            if self.tok(self.current).kind == TokenKind::ParenStart {
                 self.current += 1;
                 expr = self.finish_call(expr)?;
             } else {
@@ -884,7 +889,7 @@ impl Parser {
     }
 
     fn primary(&mut self) -> Result<Expr, PakhiErr> {
-        match self.tokens[self.current].kind.clone() {
+        match self.tok(self.current).kind.clone() {
             TokenKind::Bool(b) => {
                 self.current += 1;
                 let (line, file_name) = self.get_token_line_file_name(self.current - 1)?;
@@ -906,19 +911,19 @@ impl Parser {
                 // this is identifier or indexing expression
 
                 let (line, file_name) = self.get_token_line_file_name(exprs_first_token_index)?;
-                let mut expr = Expr::Primary(Primary::Var(self.tokens[self.current].clone()), line, file_name);
+                let mut expr = Expr::Primary(Primary::Var(self.tok(self.current).clone()), line, file_name);
                 // consuming identifier token
                 self.current += 1;
 
                 // this loop works for multi-dimensional or single-dimensional indexing, for example
                 // arr[1][2] or arr[1]
-                while self.tokens[self.current].kind == TokenKind::SquareBraceStart {
+                while self.tok(self.current).kind == TokenKind::SquareBraceStart {
                     let exprs_first_token_index = self.current;
 
                     // consuming [ token
                     self.current += 1;
                     let i = self.expression()?;
-                    if self.tokens[self.current].kind != TokenKind::SquareBraceEnd {
+                    if self.tok(self.current).kind != TokenKind::SquareBraceEnd {
                         let (line, file_name) = self.extract_err_meta()?;
                         return Err(PakhiErr::SyntaxError(line, file_name, "Expected ']'".to_string()));
                     }
@@ -950,17 +955,17 @@ impl Parser {
 
                 let mut array_literal: Vec<Expr> = Vec::new();
 
-                while self.tokens[self.current].kind != TokenKind::SquareBraceEnd {
+                while self.tok(self.current).kind != TokenKind::SquareBraceEnd {
                     let expr = self.expression()?;
                     array_literal.push(expr);
 
-                    if self.tokens[self.current].kind == TokenKind::Comma {
+                    if self.tok(self.current).kind == TokenKind::Comma {
                         //consuming comma token
                         self.current += 1;
                     }
                 }
 
-                if self.tokens[self.current].kind != TokenKind::SquareBraceEnd {
+                if self.tok(self.current).kind != TokenKind::SquareBraceEnd {
                     let (line, file_name) = self.extract_err_meta()?;
                     return Err(PakhiErr::SyntaxError(line, file_name, "Expecting ']'".to_string()));
                 }
@@ -979,7 +984,7 @@ impl Parser {
                 // consuming @ token
                 self.current += 1;
 
-                if self.tokens[self.current].kind != TokenKind::CurlyBraceStart {
+                if self.tok(self.current).kind != TokenKind::CurlyBraceStart {
                     let (line, file_name) = self.extract_err_meta()?;
                     return Err(PakhiErr::SyntaxError(line, file_name, "Expected {{ after '@'".to_string()));
                 }
@@ -989,13 +994,13 @@ impl Parser {
                 let mut keys: Vec<Expr>  = Vec::new();
                 let mut values: Vec<Expr>  = Vec::new();
 
-                while self.tokens[self.current].kind != TokenKind::CurlyBraceEnd {
+                while self.tok(self.current).kind != TokenKind::CurlyBraceEnd {
                     // pushing key of a key-value pair
                     let expr = self.expression()?;
                     keys.push(expr);
 
                     // Token after key should be colon
-                    if self.tokens[self.current].kind != TokenKind::Map {
+                    if self.tok(self.current).kind != TokenKind::Map {
                         let (line, file_name) = self.extract_err_meta()?;
                         return Err(PakhiErr::SyntaxError(line, file_name,
                                                          "Expected -> after key name".to_string()));
@@ -1007,13 +1012,13 @@ impl Parser {
                     let expr = self.expression()?;
                     values.push(expr);
 
-                    if self.tokens[self.current].kind == TokenKind::Comma {
+                    if self.tok(self.current).kind == TokenKind::Comma {
                         // consuming , token
                         self.current += 1
                     }
                 }
 
-                if self.tokens[self.current].kind != TokenKind::CurlyBraceEnd {
+                if self.tok(self.current).kind != TokenKind::CurlyBraceEnd {
                     let (line, file_name) = self.extract_err_meta()?;
                     return Err(PakhiErr::SyntaxError(line, file_name, "Expecting }}".to_string()));
                 }
@@ -1035,8 +1040,8 @@ impl Parser {
         if self.current >= self.tokens.len() {
             return Err(PakhiErr::UnexpectedError("Unexpected error, probably missing ';'".to_string()));
         } else {
-            let line = self.tokens[self.current].line;
-            let file_name = self.tokens[self.current].src_file_path.clone();
+            let line = self.tok(self.current).line;
+            let file_name = self.tok(self.current).src_file_path.clone();
             return Ok((line, file_name))
         }
     }
